@@ -48,14 +48,22 @@ FAMILIES = {
     'B': (['eq', 'eqb', 'eqpar', 'eqpos', 'list2', 'tuple1', 'dict2',
            'dict2r', 'dictmix', 'dictmixr'], 2, 2),
     'C': (['eq', 'list2', 'dict1'], 3, 2),
+    # three nodes: equal-but-distinct Buildables / lists vs shared ones
+    'S3': (['eq', 'list2'], 3, 1),
+    # nested constant tuples: the same object vs an equal distinct object
+    'T': (['eq', 'list2'], 2, 4),
 }
-LEAVES = [1, 'D']
+T1 = ((3, 3), 'same')
+T2 = tuple([tuple([3, 3]), 'same'])     # equal to T1, a different object
+assert T1 == T2 and T1 is not T2 and T1[0] is not T2[0]
+LEAVES = [1, 'D', T1, T2]
 NCHUNK = 32
 
 
 def bounds(tier):
-  fams = ['A', 'M'] if tier == 'quick' else ['B', 'C']
-  return {'families': {f: FAMILIES[f] for f in fams}}
+  fams = ['A', 'M', 'S3', 'T'] if tier == 'quick' else ['B', 'C', 'S3', 'T']
+  return {'families': {f: FAMILIES[f] for f in fams},
+          'alias_menu': ['eq', 'eq3'], 'alias_nodes': 4}
 
 
 def units(tier, seed):
@@ -64,6 +72,8 @@ def units(tier, seed):
     for k in range(NCHUNK):
       out.append(('pairs', f, k))
     out.append(('rewrites', f))
+  for k in range(NCHUNK):
+    out.append(('alias', k))
   return out
 
 
@@ -113,6 +123,8 @@ def run_unit(unit, tier, seed):
   res = core.Result()
   if unit[0] == 'rewrites':
     return run_rewrites(unit[1], res)
+  if unit[0] == 'alias':
+    return run_alias(unit[1], res)
   _, fam, k = unit
   shp, byname = family(fam)
   cfgs = [shapes.materialize(s, byname, LEAVES)[-1] for s in shp]
@@ -236,6 +248,70 @@ def run_rewrites(fam, res):
   return res
 
 
+def alias_shapes():
+  """4-node shapes whose nodes 0 and 1 are equal-but-distinct Configs and
+  whose nodes 2, 3 range over every definition (kind x slots)."""
+  import itertools  # pylint: disable=g-import-not-at-top
+  base = (('eq', ('U', 'U')), ('eq', ('U', 'U')))
+
+  def defs(i):
+    ch = ['U', ('L', 0)] + [('R', j) for j in range(i)]
+    for kind, n in (('eq', 2), ('eq3', 3)):
+      for slots in itertools.product(ch, repeat=n):
+        yield (kind, slots)
+
+  for d2 in defs(2):
+    for d3 in defs(3):
+      yield base + (d2, d3)
+
+
+def alias_rewrites(shape):
+  """Redirect one reference to another node with an identical definition."""
+  for i, (kind, slots) in enumerate(shape):
+    for si, s in enumerate(slots):
+      if isinstance(s, tuple) and s[0] == 'R':
+        j = s[1]
+        for j2 in range(i):
+          if j2 != j and shape[j2] == shape[j]:
+            new_slots = slots[:si] + (('R', j2),) + slots[si + 1:]
+            yield shape[:i] + ((kind, new_slots),) + shape[i + 1:]
+
+
+def run_alias(k, res):
+  ks = shapes.std_kinds(['eq', 'eq3'])
+  byname = {x.name: x for x in ks}
+  for idx, shape in enumerate(alias_shapes()):
+    if idx % NCHUNK != k:
+      continue
+    a = None
+    for other in alias_rewrites(shape):
+      if a is None:
+        a = shapes.materialize(shape, byname, LEAVES)[-1]
+        ka = expected_key(a, False)
+        res.states += 1
+      b = shapes.materialize(other, byname, LEAVES)[-1]
+      exp = ka == expected_key(b, False)
+      case = {'family': 'alias', 'a': shape, 'b': other}
+      res.transitions += 1
+      res.nontrivial += 1
+      for x, y in ((a, b), (b, a)):
+        st, r = safe_eq(x, y)
+        if st == 'raise':
+          res.violation('C06/eq-raises/alias', f'{case}: {r}', case)
+          break
+        if r != exp:
+          kind = 'equal-configs-compare-unequal' if exp else (
+              'different-configs-compare-equal')
+          res.violation(f'C06/{kind}/alias-redirected',
+                        f'{case}: {x!r} == {y!r} gave {r}', case)
+          break
+      res.outcomes[f'alias:{exp}'] += 1
+    if idx % 3001 == 0:
+      res.sample({'alias_shape': shape})
+  res.evals = res.transitions
+  return res
+
+
 def _shape(x):
   return tuple((k, tuple(tuple(s) if isinstance(s, list) else s for s in sl))
                for k, sl in x)
@@ -243,7 +319,11 @@ def _shape(x):
 
 def replay(case):
   res = core.Result()
-  _, byname = family(case['family'])
+  if case['family'] == 'alias':
+    ks = shapes.std_kinds(['eq', 'eq3'])
+    byname = {x.name: x for x in ks}
+  else:
+    _, byname = family(case['family'])
   a = shapes.materialize(_shape(case['a']), byname, LEAVES)[-1]
   if 'rewrite' in case:
     for name, other in rewrites(a):
